@@ -325,6 +325,16 @@ def build(repo=None):
                     ob_["serves"] = ["C11", "C18"]
             collect(st.obl, ["C11"])
 
+    # `sys.meta_path.remove(self.hook)` (and `in` / `index` on that list) compares with ==: the removal clause below models it as removing the argument
+    # itself, which is right exactly when a finder equals only itself -- the finder class keeps object's identity comparison
+    fcls = mod.cls("_JaxtypingFinder")
+    f_own = sorted(b_.name for b_ in fcls.body if isinstance(b_, (ast.FunctionDef, ast.AsyncFunctionDef))) + sorted(
+        t_.id for b_ in fcls.body if isinstance(b_, (ast.Assign, ast.AnnAssign)) for t_ in (b_.targets if isinstance(b_, ast.Assign) else [b_.target]) if isinstance(t_, ast.Name))
+    f_bases = [ast.unparse(b_) for b_ in fcls.bases]
+    obligations.append({"clause": "C11:a-finder-equals-only-itself(identity-comparison-kept:-uninstall-removes-the-manager's-own-finder-among-several-hooks-on-the-same-names)",
+                        "kind": "vc", "pc": [], "path": [], "serves": ["C11", "C10", "C18"],
+                        "meta": {"defines": z3.StringVal(",".join(f_own)), "bases": z3.StringVal(",".join(f_bases)), "decorators": z3.StringVal(",".join(ast.unparse(d_) for d_ in fcls.decorator_list))},
+                        "goal": z3.BoolVal(not ({"__eq__", "__ne__", "__hash__", "__getattribute__"} & set(f_own)) and f_bases == ["MetaPathFinder"] and not fcls.keywords and not fcls.decorator_list)})
     for meth in ("uninstall", "__exit__"):
         f = mod.func(f"ImportHookManager.{meth}")
         fdesc(f"ImportHookManager.{meth}", f)
